@@ -49,6 +49,36 @@ def simulate(chk, cfg, num, depth, seed):
     return behs
 
 
+def _c02_sat(args):
+    """C02: under saturate an out-of-range input of ANY magnitude is stored as the bound on its own side (n_frac >= 0):
+    floats up to the largest double and Python integers of any size, through scalar and container carriers and every route."""
+    seed, count = args
+    import fractions
+    from .. import x_store
+    F = fractions.Fraction
+    fx = common.import_fxpmath()
+    import numpy as np
+    rng = random.Random(seed)
+    out = []
+    fmax = float(np.finfo(float).max)
+    for _ in range(count):
+        s = rng.random() < 0.5
+        w = rng.choice([1, 2, 8, 16, 31, 32, 33, 52, rng.randint(1, 52)])
+        f = rng.choice([0, 1, w // 2, w, w + 8, rng.randint(0, w + 8)])
+        r = rng.choice(['trunc', 'fix', 'floor', 'ceil', 'around'])
+        mags = [2.0 ** 62, 2.0 ** 63, 2.0 ** 63 * 1.5, 2.0 ** 64, 2.0 ** 64 * 1.25, 1e19, 1e20, 1e30, 1e300, fmax, 2.0 ** (63 - min(f, 60)), 2.0 ** (64 - min(f, 60))]
+        floats = [F(m * sg) for m in mags for sg in (1, -1)]
+        rng.shuffle(floats)
+        route = rng.choice(['ctor', 'call', 'set_val', 'setitem', 'call-reset'])
+        out.append(x_store.observe(fx, np, (s, w, f), (r, 'saturate'), floats[:8], rng.choice(['pyfloat', 'np.float64', '0d-f64']), route, ['C02'], False))
+        ar = rng.choice(['ctor', 'call', 'set_val', 'setitem-slice'])
+        out.append(x_store.observe(fx, np, (s, w, f), (r, 'saturate'), floats[8:16], rng.choice(['ndarray-f64', 'list', 'tuple']), ar, ['C02'], True))
+        out.append(x_store.observe(fx, np, (s, w, f), (r, 'saturate'), [floats[16], F(0)] if len(floats) > 16 else floats[:2], 'list', ar, ['C02'], True))
+        ints = [F(sg * (1 << b) + rng.randint(-3, 3)) for b in (62, 63, 64, 65, 100, 1000) for sg in (1, -1)]
+        out.append(x_store.observe(fx, np, (s, w, f), (r, 'saturate'), ints, 'pyint', route, ['C02'], False))
+    return [o for o in out if o is not None]
+
+
 def run(chk):
     pid, tier = chk.pid, chk.tier
     rows, r = chk.model_check('MC_System.tla', 'MC_System_%s_%s.cfg' % (pid, tier), label='MC_System', heap='12g', timeout=3000)
@@ -63,13 +93,20 @@ def run(chk):
     # keep maximal behaviours only: a behaviour that is a proper prefix of another one is replayed as part of it
     full = _maximal(behs)
     chk.extra['model']['maximal_behaviours_replayed'] = len(full)
-    sim = simulate(chk, 'MC_System_%s_sim.cfg' % pid, 300 if tier == 'quick' else 6000, 9, chk.seed)
+    sim = simulate(chk, 'MC_System_%s_sim.cfg' % pid, 120 if tier == 'quick' else 4000, 9, chk.seed)
     allb = full + sim
     indexed = list(enumerate(allb, 1))
     chunks = [indexed[i::core.NPROC * 2] for i in range(core.NPROC * 2)]
     obs = []
+    import time as _t
+    t1 = _t.time()
     for part in core.parallel_map(_exec, [(c, chk.seed) for c in chunks if c]):
         obs += part
+    chk.extra['exec_wall_s'] = round(_t.time() - t1, 1)
+    if pid == 'C02':
+        n = 320 if tier == 'quick' else 8000
+        for part in core.parallel_map(_c02_sat, [(chk.seed * 1000 + i, n // core.NPROC + 1) for i in range(core.NPROC)]):
+            obs += part
     chk.exhaustive = True
     return obs
 
@@ -84,6 +121,11 @@ def _maximal(behs):
 
 
 def account(chk, obs):
+    from .. import registry
+    rest = [r for r in obs if r.get('k') != 'sys']
+    if rest:
+        registry.default_account(chk, rest)
+    obs = [r for r in obs if r.get('k') == 'sys']
     ev = len(obs)
     seen = set()
     for r in obs:
@@ -94,7 +136,7 @@ def account(chk, obs):
             seen.add((r['b'], r['i']))
     chk.evaluations += ev
     chk.nontrivial += len(seen)
-    chk.rule = ('cases = calls executed on real objects along behaviours of FxpSystem (transition cover of the bounded model + simulated '
+    chk.rule = (chk.rule + ' | ' if chk.rule else '') + ('cases = calls executed on real objects along behaviours of FxpSystem (transition cover of the bounded model + simulated '
                 'behaviours); non-trivial = distinct (behaviour, step) at which at least two objects are alive (aliasing can matter) or some '
                 'status flag is raised (stickiness / exactness of flags can matter)')
     for r in obs[:400:100]:
